@@ -285,6 +285,11 @@ func runC30(c *fw.Ctx) {
 	c.SetRule("all ordered pairs of the 20 commits of C25 (a: absent/2 contents/exec/symlink, d: absent/file/dir x2) x 8 local modifications x {Checkout branch, Checkout hash, Reset Merge, Reset Keep} (inapplicable combinations skipped and not counted); the same op runs through go-git on copy A and real git on copy B; a case fails when local content (bytes+exec bit at its path) is gone from A although git either refused or kept it; cases where git itself discards the content (e.g. staged edits under reset --merge) are only counted; non-trivial = every executed case; distinct counts (modification, op, go-git refused?, git refused?, lost-by-both)")
 	c.Assume("git 2.39.5 checkout / reset --merge / reset --keep verdicts are the reference for what may be discarded; a deletion carries no content and is not judged; go-git refusing more often than git is allowed by the statement")
 
+	if v := hDevVec(); v != nil {
+		sig, class := e.run(v)
+		fmt.Printf("case %s\n class %s\n disagreement %s\n", c30Render(v), class, sig)
+		return
+	}
 	var fails hFailures
 	c.ParDo(n, 0, func(k int) {
 		i := hSpread(k, n)
@@ -299,8 +304,14 @@ func runC30(c *fw.Ctx) {
 			c.Sample(map[string]any{"case": c30Render(v), "class": class, "disagreement": sig})
 		}
 		if sig != "" {
-			fails.add(i, v, sig)
+			// class = (op family, kind of local change, what happened to it); paths are not part of the key
+			opc := []string{"Checkout", "Checkout", "Reset(Merge)", "Reset(Keep)"}[v[5]]
+			modc := []string{"unstaged edit of a tracked file", "unstaged edit of a tracked file", "chmod +x of a tracked file", "untracked file at a path the target adds",
+				"staged edit of a tracked file", "staged new file at a path the target adds", "untracked wrong-type entry where the target adds", "deleted tracked file"}[v[4]]
+			for tok := range hSigTokens(sig) {
+				fails.addHint(i, v, sig, fmt.Sprintf("%s with %s: %s", opc, modc, tok))
+			}
 		}
 	})
-	fails.report(c, func(v []int) string { s, _ := e.run(v); return s }, c30Render)
+	hReportClasses(c, &fails, c30Render)
 }
